@@ -4,6 +4,7 @@ import RTA.Model.Ros
 import RTA.Model.XCost
 import RTA.Spec.Naive
 import RTA.Model.Poisson
+import RTA.Spec.Ros2Exec
 import RTA.Spec.NaiveRos
 /-! Line-protocol driver: one operation per input line, one result per output line. -/
 
@@ -202,6 +203,24 @@ def evalOp : List String → Option String
     let (delta, ts) ← pNat ts
     let (n, _) ← pNat ts
     pure (toString (poissonPmfF (rn.toFloat / rd.toFloat) delta n).toBits)
+  | "exec" :: ts => do
+    -- exec n (isTimer prio cost)*n  m (i j)*m  sigmaBits  r (t i)*r
+    let (n, ts) ← pNat ts
+    let (cbs, ts) ← pRep (fun ts => do
+      let (tm, ts) ← pNat ts
+      let (pr, ts) ← pNat ts
+      let (c, ts) ← pNat ts
+      pure (({ isTimer := tm == 1, prio := pr, cost := c } : Exec.Cb), ts)) n ts
+    let (ch, ts) ← pList (pPair pNat pNat) ts
+    match ts with
+    | bits :: ts =>
+      let (rl, _) ← pList (pPair pNat pNat) ts
+      let sigma := bits.toList.map (· == '1')
+      let chain := fun i => (ch.find? (·.1 == i)).map (·.2)
+      let rels := fun t => (rl.filter (·.1 == t)).map (·.2)
+      let outs := Exec.run cbs chain sigma rels
+      pure ("[" ++ ",".intercalate (outs.map fun (i, r, c) => s!"{i}:{r}:{c}") ++ "]")
+    | [] => none
   | "maxrt" :: ts => do
     let (rs, _) ← pList pRes ts
     pure (maxResponseTime rs).toStr
